@@ -353,7 +353,7 @@ class IndexedSet(MutableSet):
 
     def intersection_update(self, *others):
         "intersection_update(*others) -> discard self.difference(*others)"
-        for val in self.difference(*others):
+        for val in self.difference(self.intersection(*others)):
             self.discard(val)
 
     def difference_update(self, *others):
